@@ -158,7 +158,7 @@ func opBlock(h *HState, a Event) Event {
 			hh := o.b.Hash()
 			e["ret"], e["obj"] = ints(hh[:]), o.id(reflect.ValueOf(hh).Pointer())
 		case "Tx":
-			t, err := o.b.Tx(gInt(a, "i"))
+			t, err := o.b.Tx(blockIdx(a))
 			_, oor := err.(bchutil.OutOfRangeError)
 			e["ok"], e["outofrange"], e["err"], e["obj"], e["tx"] = err == nil, oor, "", 0, map[string]interface{}{}
 			if err != nil {
@@ -168,7 +168,7 @@ func opBlock(h *HState, a Event) Event {
 				e["tx"] = o.txView(t, gInt(a, "i"))
 			}
 		case "TxHash":
-			hh, err := o.b.TxHash(gInt(a, "i"))
+			hh, err := o.b.TxHash(blockIdx(a))
 			_, oor := err.(bchutil.OutOfRangeError)
 			e["ok"], e["outofrange"], e["err"], e["obj"], e["ret"] = err == nil, oor, "", 0, []int{}
 			if err != nil {
@@ -232,6 +232,17 @@ func opTwoBlocks(_ *HState, a Event) Event {
 		}
 	})
 	return panicField(e, p, msg)
+}
+
+// blockIdx: the index of a Tx / TxHash call.  "far": k makes the real argument low + k * 2^32 (low is a VALID index, so
+// the low 32 bits of the argument are valid while the argument is far out of range); the specification sees i, which
+// is out of range as well (-1 or n).
+func blockIdx(a Event) int {
+	i := gInt(a, "i")
+	if k := gInt(a, "far"); k != 0 {
+		return gInt(a, "low") + k<<32
+	}
+	return i
 }
 
 func opTxWrap(_ *HState, a Event) Event {
@@ -312,6 +323,12 @@ func runC16(c *Ctx) {
 		}
 		for _, i := range []int{-1, n, n + 1, -1 << 31, 1<<31 - 1} {
 			calls = append(calls, Event{"op": "Tx", "i": i}, Event{"op": "TxHash", "i": i})
+		}
+		if n > 0 && k%2 == 0 { // indexes whose LOW 32 bits are valid (0 or n-1) but which are far out of range, with a complete cache
+			calls = append(calls, Event{"op": "Transactions"})
+			for _, fk := range []int{1, -1, 3, -(1 << 31)} {
+				calls = append(calls, Event{"op": "Tx", "i": -1, "far": fk, "low": 0}, Event{"op": "TxHash", "i": n, "far": fk, "low": n - 1})
+			}
 		}
 		c.Run(calls)
 	}
